@@ -1,1 +1,117 @@
+(* C15 -- selectors are bound to namespace URIs, not prefixes.  Property theorems over the model
+   CssV.Namespaces (model of util._Namespaces, CSSStyleSheet namespaces/_cleanNamespaces/deleteRule/insertRule,
+   CSSNamespaceRule, Selector.append, do_css_Selector).  Proofs: CssV.NamespacesFacts. *)
 From CssV Require Import Base Namespaces NamespacesFacts.
+
+(* 1. A selector that uses an undeclared prefix is rejected: the whole rule set is dropped by the sheet parser. *)
+Theorem undeclared_prefix_rejected : forall d e sh k p n its t,
+  In (PSel k (FPfx p) n) its -> dget d p = None ->
+  resolve_all d its = None /\ parse_loop d e sh (SStyle its :: t) = parse_loop d 3 sh t.
+Proof. exact undeclared_rule_dropped. Qed.
+Print Assumptions undeclared_prefix_rejected.
+
+(* 2. Every accepted type / universal / attribute / negation item is stored with the URI its prefix (or the
+      default namespace; never for attributes) denotes in the declarations in force. *)
+Theorem resolve_binds_uri : forall d its r, resolve_all d its = Some r -> Forall2 (binds d) its r.
+Proof. exact resolve_all_binds. Qed.
+Print Assumptions resolve_binds_uri.
+
+(* 3. Frame: no sequence of namespace operations (successful or rejected) changes any selector item. *)
+Theorem ns_ops_preserve_pairs : forall ops sh, ordered sh = true -> pairs (run ops sh) = pairs sh.
+Proof. exact pairs_frame. Qed.
+Print Assumptions ns_ops_preserve_pairs.
+Theorem ns_ops_preserve_pairs_parsed : forall stmts ops,
+  pairs (run ops (fst (parse stmts))) = pairs (fst (parse stmts)) /\
+  items_of (run ops (fst (parse stmts))) = items_of (fst (parse stmts)).
+Proof. exact pairs_frame_parsed. Qed.
+Print Assumptions ns_ops_preserve_pairs_parsed.
+
+(* 4. In every reachable sheet every @namespace rule still holds, and prints, its prefix and URI
+      (after the repair of _setPrefix; on the pinned tree `@namespace "u";` + namespaces[''] = "u" printed `@namespace;`). *)
+Theorem ns_rule_keeps_uri : forall stmts ops r,
+  In r (nsl (run ops (fst (parse stmts)))) -> ser_ns r = Some (prefix r, uri r) /\ In (NUri (uri r)) (items r).
+Proof. exact ns_rule_keeps_uri_parsed. Qed.
+Print Assumptions ns_rule_keeps_uri.
+
+(* 5. The last rule of a URI that a selector still uses cannot be deleted -- by deleteRule, and by no history. *)
+Theorem delete_protected : forall sh i r,
+  nth_error sh i = Some (RNs r) -> used (uri r) sh = true -> cnt (uri r) sh = 1 ->
+  step (ODelRule i) sh = (sh, Raise ENoMod) /\ delete_rule i sh = (sh, Raise ENoMod).
+Proof. exact delete_protected_step. Qed.
+Print Assumptions delete_protected.
+Theorem used_uri_keeps_declaration : forall stmts ops k u n,
+  let sh := fst (parse stmts) in
+  In (IPair k (UStr u) n) (items_of sh) -> (exists r, In r (nsl sh) /\ uri r = u) ->
+  In (IPair k (UStr u) n) (items_of (run ops sh)) /\ exists r, In r (nsl (run ops sh)) /\ uri r = u.
+Proof. exact used_uri_stays_declared. Qed.
+Print Assumptions used_uri_keeps_declaration.
+
+(* 6. sheet.namespaces = the mapping of the @namespace rules.
+      Full statement (REFUTED on the current tree, open finding C15-redeclare-prefix-by-rule-object):
+        forall stmts ops, let sh := run ops (fst (parse stmts)) in view sh = rev (ns_pairs sh)
+      Proved part: it holds for every clean sheet (distinct prefixes, distinct URIs), where moreover
+      _cleanNamespaces removes nothing (every rule is effective). *)
+Theorem view_matches_rules_partial : forall sh,
+  Clean sh ->
+  view sh = rev (ns_pairs sh) /\
+  (forall p u, dget (view sh) p = Some u <-> exists r, In r (nsl sh) /\ prefix r = p /\ uri r = u) /\
+  clean sh = (sh, Ok).
+Proof. exact view_matches_clean. Qed.
+Print Assumptions view_matches_rules_partial.
+
+Definition wA : list stmt :=
+  [SNs (s "p") (s "u1"); SNs (s "q") (s "u2"); SStyle [PSel KType (FPfx (s "q")) (s "a")]].
+Theorem view_matches_rules_refuted : exists stmts ops,
+  let sh := run ops (fst (parse stmts)) in
+  view sh <> rev (ns_pairs sh) /\ view sh = [(s "p", s "u1")] /\ ns_pairs sh = [(s "p", s "u1"); (s "p", s "u2")].
+Proof. exists wA, [OAddObj (s "p") (s "u2")]. vm_compute. repeat split; congruence. Qed.
+Print Assumptions view_matches_rules_refuted.
+
+(* 7. The serialised sheet re-parses to the same pairs.
+      Full statement (REFUTED, three open findings):
+        forall stmts ops, let sh := run ops (fst (parse stmts)) in pairs (reparse sh) = pairs sh *)
+Theorem reparse_same_pairs_refuted_redeclare : exists stmts ops,
+  let sh := run ops (fst (parse stmts)) in pairs (reparse sh) <> pairs sh.
+Proof. exists wA, [OAddObj (s "p") (s "u2")]. vm_compute. congruence. Qed.
+Print Assumptions reparse_same_pairs_refuted_redeclare.
+Theorem reparse_same_pairs_refuted_unbound : exists stmts ops,
+  let sh := run ops (fst (parse stmts)) in pairs (reparse sh) <> pairs sh.
+Proof. exists [SStyle [PSel KType FNone (s "e")]], [OSet [] (s "d")]. vm_compute. congruence. Qed.
+Print Assumptions reparse_same_pairs_refuted_unbound.
+Theorem reparse_same_pairs_refuted_attribute : exists stmts,
+  let sh := fst (parse stmts) in pairs (reparse sh) <> pairs sh.
+Proof.
+  exists [SNs (s "p") (s "u"); SNs [] (s "u"); SStyle [PSel KAttr (FPfx (s "p")) (s "a")]]. vm_compute. congruence.
+Qed.
+Print Assumptions reparse_same_pairs_refuted_attribute.
+
+(* ---- non-vacuity *)
+Definition wB : list stmt :=
+  [SNs (s "p") (s "u1"); SNs [] (s "d");
+   SStyle [PSel KType (FPfx (s "p")) (s "a"); PSel KType FNone (s "e"); PSel KAttr (FPfx (s "p")) (s "b");
+           PSel KUniv FStar (s "*"); PSel KType FEmpty (s "c")];
+   SStyle [PSel KType (FPfx (s "zz")) (s "x")]].
+Example parse_wB :
+  pairs (fst (parse wB)) =
+    [IPair KType (UStr (s "u1")) (s "a"); IPair KType (UStr (s "d")) (s "e"); IPair KAttr (UStr (s "u1")) (s "b");
+     IPair KUniv UAny (s "*"); IPair KType (UStr []) (s "c")]
+  /\ length (fst (parse wB)) = 3                      (* the rule with the undeclared prefix zz is gone *)
+  /\ pairs (reparse (fst (parse wB))) = pairs (fst (parse wB)).
+Proof. vm_compute. repeat split. Qed.
+(* renaming (second prefix for the same URI), a rejected re-declaration, a rejected deletion, a deletion through
+   the mapping: the pairs stay, the view follows the rules, the sheet re-parses to the same pairs *)
+Example history_wB :
+  let ops := [OSet (s "q") (s "u1"); OSet (s "q") (s "u2"); ODel (s "q"); OAddText (s "r") (s "u3"); ODel (s "r")] in
+  let sh := run ops (fst (parse wB)) in
+  map (fun o => snd (step o (fst (parse wB)))) [OSet (s "q") (s "u1"); OSet (s "p") (s "u2"); ODel (s "p")]
+    = [Ok; Raise ENoMod; Raise ENoMod]
+  /\ view sh = [(s "q", s "u1"); ([], s "d")] /\ Clean sh /\ ordered sh = true
+  /\ pairs sh = pairs (fst (parse wB)) /\ pairs (reparse sh) = pairs sh.
+Proof.
+  vm_compute. repeat split;
+    repeat (apply NoDup_cons; [simpl; intuition congruence|]); apply NoDup_nil.
+Qed.
+Example delete_protected_nonvacuous :
+  let sh := fst (parse wB) in
+  nth_error sh 0 = Some (RNs (mk_text (s "p") (s "u1"))) /\ used (s "u1") sh = true /\ cnt (s "u1") sh = 1.
+Proof. vm_compute. repeat split. Qed.
